@@ -152,7 +152,8 @@ Proof. exact draws_paint_partial_lemma. Qed.
 Print Assumptions draws_paint_partial.
 
 (* all histories in partial display mode - draws, clear(), frames abandoned because SIGWINCH arrived while
-   the frame was produced (then acknowledged) -: the agreement is kept, and right after a completed
+   the frame was produced (then acknowledged), size changes that keep the cursor on row _cy and the lines
+   below _rows_used blank ([resized_partial]) -: the agreement is kept, and right after a completed
    draw the terminal paints that canvas *)
 Theorem partial_history_paints :
   forall c s t content cursor,
